@@ -116,6 +116,10 @@ theorem C03_optional_empty_silent_struct (ext : Ext) (fns : FnTables) (scope sn 
       · subst hr; rw [fieldRules_empty]; exact ih st hrest
       · rw [fieldRules_custom_zero ext fns scope sn fname v descend r mk rs d st hr h hz]; exact ih st hrest
 
+-- the hypotheses are satisfiable: three table rules (one with a message, one empty item) on an empty string
+example : tableItem {} (b! "phone") ∧ tableItem {} (b! "to=1~3|too long") ∧ tableItem {} [] ∧ (GoVal.str []).isZero = true := by
+  exact ⟨Or.inr (Or.inl ⟨_, rfl⟩), Or.inr (Or.inl ⟨_, rfl⟩), Or.inl rfl, rfl⟩
+
 /-- a rule key that is absent from the input contributes one `required` clause per `required` item of
 its rule list, and nothing else; a key that is present contributes nothing here -/
 theorem C03_missing_entry (rm : RM) (present : List Bytes) (nameOf : Bytes → Bytes) :
